@@ -442,3 +442,186 @@ Proof.
   unfold ex_gap_run. repeat (apply Forall_app; split); try (apply Forall_forall; intros l Hl; apply repeat_spec in Hl; subst l; exact I);
     constructor; try exact I; constructor.
 Qed.
+
+(* ================================================================================================
+   Clauses (b) and (c), WHICH ID a relay error / clean-up path uses (added after seed C08-5: the
+   re-fragmenting sender recorded `cr.Header.ID` -- by then rewritten to the DESTINATION id -- as
+   the id to fail when a fragment cannot be queued, so the relay failed r.outbound[destinationID]:
+   the caller of the appended call got no error at all, and an unrelated in-flight call of the same
+   caller whose id equals that destination id was answered with relay-dest-conn-slow).
+
+   "The caller receives exactly the response or error the destination / relay produced" and "ids
+   are remapped so calls never collide" need every error frame towards the caller and every item
+   failed in a relayer's table to use the id of THAT relayer's connection -- the id the frame was
+   read with -- never the id the frame was rewritten to.
+   Tie: go2v/relayidsites.go -> Gen/GenRelayIdSites.v (every uint32 id argument, every id store,
+   every frame handed on before / after its header rewrite, every failRelayItem / SendSystemError
+   call, the literal of relayFragmentSender); Model/RelayIdSites.v (id-space discipline);
+   models: Model/RelayItems.v (ids are (connection, table, id) triples), Model/RelayFwd.v. *)
+From Verif Require Gen.GenRelayIdSites Model.RelayIdSites Model.RelayErrId
+  Proofs.RelayIdSitesP Proofs.RelayErrIdP Proofs.RelayFwdErrP.
+
+(* the generated tables obey the id-space discipline: every id argument of every call is in the id
+   space its callee expects (own id for a table / timer / SendSystemError of the relayer itself,
+   the other connection's id as remapID), a header is only rewritten to the other connection's id,
+   every fail site uses a table of its own relayer with an own id, every frame a Receive gets was
+   rewritten first, the fragment sender is built from the own relayer, own table and own id *)
+Theorem C08_id_sites_generated :
+  RelayIdSites.id_discipline GenRelayIdSites.relay_id_args GenRelayIdSites.relay_id_stores GenRelayIdSites.relay_frame_args
+    GenRelayIdSites.relay_fail_sites GenRelayIdSites.relay_syserr_sites GenRelayIdSites.relay_fragsender_lit
+    GenRelayIdSites.relay_funcval_sites = true.
+Proof. exact RelayIdSitesP.gen_id_discipline. Qed.
+
+(* the site tables that are instructions of the model are the model's copy: the five failRelayItem
+   calls, the eight SendSystemError calls, the seven fields of the fragment sender's literal *)
+Theorem C08_err_sites_generated :
+  GenRelayIdSites.relay_fail_sites = RelayIdSites.ri_fail_rows /\
+  GenRelayIdSites.relay_syserr_sites = RelayIdSites.ri_syserr_rows /\
+  GenRelayIdSites.relay_fragsender_lit = RelayIdSites.ri_lit_rows.
+Proof. exact (conj RelayIdSitesP.gen_fail_sites (conj RelayIdSitesP.gen_syserr_sites RelayIdSitesP.gen_fragsender_lit)). Qed.
+
+(* ... each with an OWN id (row by row, computed from the generated tables), and every frame that
+   reaches Relayer.Receive carries the receiving relayer's id *)
+Theorem C08_err_sites_own :
+  forallb (fun row => let '(fn, callee, _, id, _) := row in
+     RelayIdSites.idsp_eqb (RelayIdSites.adj callee (RelayIdSitesP.gen_space fn id)) RelayIdSites.SpOwn) GenRelayIdSites.relay_fail_sites = true /\
+  forallb (fun row => let '(fn, rcv, id) := row in
+     bytes_eqb rcv RelayIdSites.ri_rconn && RelayIdSites.idsp_eqb (RelayIdSitesP.gen_space fn id) RelayIdSites.SpOwn) GenRelayIdSites.relay_syserr_sites = true /\
+  RelayIdSites.frame_space GenRelayIdSites.relay_frame_args 10 RelayIdSites.ri_fn_receive = RelayIdSites.SpOwn /\
+  RelayIdSites.frame_space GenRelayIdSites.relay_frame_args 10 RelayIdSites.ri_fn_newsender = RelayIdSites.SpRemote.
+Proof.
+  exact (conj RelayIdSitesP.gen_fail_own (conj RelayIdSitesP.gen_syserr_own (conj RelayIdSitesP.gen_receive_own RelayIdSitesP.gen_sender_remote))).
+Qed.
+
+(* the rows as instructions of the interleaving model: an item is failed under the id the frame was
+   READ with (k, table, f_id f), while the frame itself travels on under the id of the other
+   connection (did / remapID) -- for the call req, every re-fragmented frame and every later frame *)
+Theorem C08_fail_sites_model : forall cf st,
+  (forall r rk lk, exists reason,
+     RelayItems.exec cf st (RelayItems.IRcvEnq r rk lk) false =
+       (st, [RelayItems.IFailGet rk reason; RelayItems.IFailGet (RelayItems.r_own r) reason])) /\
+  (forall k f e c d did, RelayItems.e_mode e <? 0 = true -> exists st1,
+     RelayItems.exec cf st (RelayItems.IAddOrig k f e c d did) true =
+       (st1, [RelayItems.IFailGet (k, 0, RelayItems.f_id f) RelayItems.reason_arg2_modify])) /\
+  (forall k f e c d did, RelayItems.e_mode e <? 0 = false -> exists st1 r,
+     RelayItems.exec cf st (RelayItems.IAddOrig k f e c d did) true = (st1, [RelayItems.ICb c RelayItems.CbSent; RelayItems.IRcvGet r]) /\
+     RelayItems.r_own r = (k, 0, RelayItems.f_id f) /\ RelayItems.f_id (RelayItems.r_f r) = did /\ RelayItems.r_d r = d) /\
+  (forall k f ft own it stopped, RelayItems.it_tomb it || (RelayItems.fin_of f && negb stopped) = false -> exists pre r,
+     RelayItems.exec cf st (RelayItems.INcChk k f ft own (Some (it, stopped))) true = (st, pre ++ [RelayItems.IRcvGet r]) /\
+     RelayItems.r_own r = own /\ RelayItems.f_id (RelayItems.r_f r) = RelayItems.it_remap it /\ RelayItems.r_d r = RelayItems.it_dest it) /\
+  (forall r r', In (RelayItems.IRcvGet r') (RelayItems.after_sent r) ->
+     RelayItems.r_own r' = RelayItems.r_own r /\ RelayItems.f_id (RelayItems.r_f r') = RelayItems.f_id (RelayItems.r_f r) /\
+     RelayItems.r_d r' = RelayItems.r_d r) /\
+  (forall r reason, RelayItems.after_unsent r reason = [RelayItems.IFailGet (RelayItems.r_own r) reason]).
+Proof. exact RelayIdSitesP.fail_sites_model. Qed.
+
+(* THE THEOREM (interleaving model, every reachable state of a run with fresh request ids, all
+   interleavings of readers, timers, collections, queues full or not): a reader goroutine calls
+   SendSystemError only on the connection it reads from and with the id of the request-direction
+   frame (call req, call req continue, cancel) it read last -- the frame it is handling.  So every
+   relay-originated error of a call -- no destination, host error, connection not active,
+   destination slow on the first frame, on re-fragmented frame n, on a continuation frame, item
+   not found -- is queued on the call's SOURCE connection with the call's SOURCE id; while a
+   response-direction frame is handled (source slow) no error frame is made at all *)
+Theorem C08_relay_error_id : forall cf ls st l k k' id' code,
+  RelayItems.run_fresh cf RelayItems.init ls = Some st ->
+  RelayErrId.err_attempt st l = Some (RelayItems.TR k, k', id', code) ->
+  exists f, RelayErrId.last_arr k ls None = Some f /\ k' = k /\ id' = RelayItems.f_id f /\
+            frameTypeFor (RelayItems.f_mt f) = Some c_requestFrame.
+Proof. exact RelayErrIdP.reader_error_id. Qed.
+
+(* the item a reader fails in an OUTBOUND table (where the originating items, the ones that answer
+   the caller, live): while it handles a request-direction frame it is the item filed under the id
+   it read on its own connection; while it handles a response-direction frame the reason is
+   relay-source-conn-slow (no error frame, by design) *)
+Theorem C08_relay_fail_key : forall cf ls st l k t reason,
+  RelayItems.run_fresh cf RelayItems.init ls = Some st ->
+  RelayErrId.fail_attempt st l = Some (RelayItems.TR k, t, reason) -> RelayItems.key_dir t = 0 ->
+  exists f, RelayErrId.last_arr k ls None = Some f /\
+    (RelayErrId.dir_of f = 0 -> t = (k, 0, RelayItems.f_id f)) /\
+    (RelayErrId.dir_of f = 1 -> reason = RelayItems.reason_source_slow).
+Proof. exact RelayErrIdP.reader_fail_outbound. Qed.
+
+(* a send attempt of a reader (first frame, re-fragmented frame n, continuation, response): the item
+   it will fail if the frame cannot be queued is its own -- (k, table of the frame's direction, id read) *)
+Theorem C08_relay_send_own : forall cf ls st k r rk lk rest,
+  RelayItems.run_fresh cf RelayItems.init ls = Some st ->
+  RelayItems.lookup RelayItems.tid_eqb (RelayItems.TR k) (RelayItems.threads st) = Some (RelayItems.IRcvEnq r rk lk :: rest) ->
+  exists f, RelayErrId.last_arr k ls None = Some f /\ RelayItems.r_own r = RelayErrId.own_key k f /\
+            RelayItems.key_dir rk = 1 - RelayErrId.dir_of f /\
+            RelayItems.r_ft r = (if RelayErrId.dir_of f =? 0 then c_requestFrame else c_responseFrame).
+Proof. exact RelayErrIdP.reader_send_own. Qed.
+
+(* the timeout path: a timer goroutine sends only the timeout error, on the connection and with the
+   id of the key its timer was started with, which is the id of a call req read on that connection *)
+Theorem C08_relay_timeout_id : forall cf ls st l tm k' id' code,
+  RelayItems.run_fresh cf RelayItems.init ls = Some st ->
+  RelayErrId.err_attempt st l = Some (RelayItems.TT tm, k', id', code) ->
+  code = c_ErrCodeTimeout /\ In (k', id') (RelayItems.seen st) /\
+  exists x, RelayItems.lookup Z.eqb tm (RelayItems.timers st) = Some x /\ RelayItems.tm_key x = (k', 0, id').
+Proof. exact RelayErrIdP.timer_error_id. Qed.
+
+(* the destination-slow path, step by step: a request-direction frame that finds the send queue
+   full fails the receiving relayer's item and the reader's own item; failRelayItem on a live
+   originating item whose timer it stops hands SendSystemError the item's own connection and id *)
+Theorem C08_dest_slow_path : forall cf st,
+  (forall r rk lk, RelayItems.r_ft r = c_requestFrame ->
+     RelayItems.exec cf st (RelayItems.IRcvEnq r rk lk) false =
+       (st, [RelayItems.IFailGet rk RelayItems.reason_dest_slow; RelayItems.IFailGet (RelayItems.r_own r) RelayItems.reason_dest_slow])) /\
+  (forall t reason it st1 room1 room2,
+     RelayItems.items_get st t true = (st1, Some (it, true)) -> RelayItems.it_tomb it = false -> RelayItems.it_orig it = true ->
+     reason <> RelayItems.reason_source_slow ->
+     (RelayItems.cf_maxtombs cf <? RelayItems.tomb_count st1 (RelayItems.key_conn t) (RelayItems.key_dir t)) = false ->
+     RelayItems.exec cf st (RelayItems.IFailGet t reason) room1 = (st1, [RelayItems.IEntomb t (RelayItems.FromFail reason)]) /\
+     exists st2, RelayItems.exec cf st1 (RelayItems.IEntomb t (RelayItems.FromFail reason)) room2 =
+       (st2, [RelayItems.ISendErr (RelayItems.key_conn t) (RelayItems.key_id t) c_ErrCodeUnexpected;
+              RelayItems.ICb (RelayItems.it_call it) (RelayItems.CbFailed reason);
+              RelayItems.ICb (RelayItems.it_call it) RelayItems.CbEnd; RelayItems.IDec (RelayItems.key_conn t)])).
+Proof.
+  exact (fun cf st => conj (RelayErrIdP.dest_slow_fails_own cf st) (fun t reason it st1 room1 room2 => RelayErrIdP.fail_own_error cf st t reason it st1 room1 room2)).
+Qed.
+
+(* the same over the frame-path model of the theorems at the top of this file: every error frame
+   made while a frame read on connection c is handled carries connection c and the id of that frame
+   AS READ; a timer's error carries the connection and id it was started with *)
+Theorem C08_fwd_error_id : forall maxT pc st c h p hd outs st',
+  step maxT pc st (LFrame c h p hd) = Some (outs, st') -> Forall (RelayFwdErrP.out_err_ok c (fh_id h)) outs.
+Proof. exact RelayFwdErrP.fwd_error_id. Qed.
+
+Theorem C08_fwd_expire_id : forall maxT pc st c outb id outs st',
+  step maxT pc st (LExpire c outb id) = Some (outs, st') -> Forall (RelayFwdErrP.out_err_ok c id) outs.
+Proof. exact RelayFwdErrP.fwd_expire_id. Qed.
+
+Print Assumptions C08_id_sites_generated.
+Print Assumptions C08_err_sites_generated.
+Print Assumptions C08_err_sites_own.
+Print Assumptions C08_fail_sites_model.
+Print Assumptions C08_relay_error_id.
+Print Assumptions C08_relay_fail_key.
+Print Assumptions C08_relay_send_own.
+Print Assumptions C08_relay_timeout_id.
+Print Assumptions C08_dest_slow_path.
+Print Assumptions C08_fwd_error_id.
+Print Assumptions C08_fwd_expire_id.
+
+(* non-vacuity.  The discipline checker rejects the edits of the family (Proofs/RelayIdSitesP.v:
+   the sender recording the rewritten header id, an item failed under the rewritten header id,
+   a timer started with the remapID, a frame handed to Receive before the rewrite). *)
+Example C08_example_discipline_rejects :
+  RelayIdSites.id_discipline GenRelayIdSites.relay_id_args
+    (RelayIdSitesP.set_store RelayIdSites.ri_field_origid RelayIdSites.ri_txt_cr_hdr GenRelayIdSites.relay_id_stores)
+    GenRelayIdSites.relay_frame_args GenRelayIdSites.relay_fail_sites GenRelayIdSites.relay_syserr_sites
+    GenRelayIdSites.relay_fragsender_lit GenRelayIdSites.relay_funcval_sites = false.
+Proof. exact RelayIdSitesP.discipline_rejects_sender_hdr. Qed.
+
+(* the scenario of the engine relayslow (Model/RelayErrId.v): the caller's call 5 (V) is in flight
+   to a healthy destination; its call 6 (M) goes to a stalled destination whose next id is 5 -- the
+   id of V.  M is re-fragmented into 3 frames, the queue has 1 free slot: frame 1 is queued, frame
+   2 is not; the error frame (code 5 = unexpected, relay-dest-conn-slow = reason 9) is made for id
+   6, nothing for id 5; M is Failed and Ended once, V is untouched.  Second line: plain forwarding,
+   queue already full.  Third: the second continuation frame does not fit. *)
+Example C08_example_slow_dest :
+  RelayErrId.run_relayslow [30000; 5; 6; 5; 3; 0; 1] = [0; 5; 1; 9; 1; 0; 0] /\
+  RelayErrId.run_relayslow [30000; 5; 6; 5; 0; 0; 0] = [0; 5; 0; 9; 1; 0; 0] /\
+  RelayErrId.run_relayslow [30000; 5; 6; 9; 2; 2; 3] = [0; 5; 3; 9; 1; 0; 0].
+Proof. vm_compute. repeat split; reflexivity. Qed.
